@@ -7,7 +7,7 @@ from .state import State, dtype, key_alloc, key_card
 I = z3.IntSort()
 
 PURE_BUILTINS = {'repr', 'len', 'range', 'isinstance', 'int', 'str', 'bool', 'min', 'max', 'abs', 'all', 'any', 'divmod', 'tuple',
-                 'old', 'implies', 'fresh', 'seq', 'dom', 'unchanged', 'type', 'iff', 'card', 'content', 'ite', 'is_none', 'val', 'prefix', 'cast', 'upd', 'elements', 'elements_if', 'dom', 'mapattr', 'content', 'truthy'}
+                 'old', 'implies', 'fresh', 'seq', 'dom', 'members', 'unchanged', 'type', 'iff', 'card', 'content', 'ite', 'is_none', 'val', 'prefix', 'cast', 'upd', 'elements', 'elements_if', 'dom', 'mapattr', 'content', 'truthy'}
 STR_METHODS = {'isupper': BOOL, 'islower': BOOL, 'upper': STR, 'lower': STR, 'startswith': BOOL, 'endswith': BOOL,
                'count': INT, 'isidentifier': BOOL, 'isdigit': BOOL, 'strip': STR, 'lstrip': STR, 'rstrip': STR,
                'encode': STR, 'decode': STR, 'find': INT, 'isalnum': BOOL, 'isalpha': BOOL, 'replace': STR, 'join': STR}
@@ -558,6 +558,11 @@ class CallMixin:
         """dom(d): the key set of a dict as a value (spec only) - use inside old(...) to talk about the keys at entry"""
         d = self.ev1(e.args[0], st)
         yield SV(Ty('fset', d.ty.args[0]), st.ddom(d.z, sort_of(d.ty.args[0]))), st
+
+    def bi_members(self, e, st):
+        """members(s): the membership of a set as a value (spec only) - e.g. bound by a loop `let` to talk about the members at loop entry"""
+        d = self.ev1(e.args[0], st)
+        yield SV(Ty('fset', d.ty.args[0]), st.smem(d.z, sort_of(d.ty.args[0]))), st
 
     def bi_content(self, e, st):
         """content(d): the key -> value map of a dict as a value (spec only); content(d)[k] is meaningful for k in dom(d)"""
